@@ -7,7 +7,7 @@ sys.path.insert(0, os.path.dirname(os.path.abspath(__file__)))
 import vlib
 
 TEXT = {
-    "C01": ("Theorems: over every history, configuration and choice list a lookup of the engine model returns the value of the latest store of exactly that key (C01_latest_value); the generated wrapper returns f(key) for every deterministic body, whatever limits, ttl, memory, predicates, invalidations occur (C01w_returns_function_value). Tied to the code by step-wise correspondence with the three real engines and with 230 macro-generated functions (oracle: returned value = function's value; methods on two receivers).", "7 C01"),
+    "C01": ("Theorems: over every history, configuration and choice list a lookup of the engine model returns the value of the latest store of exactly that key (C01_latest_value); the generated wrapper returns f(key) for every deterministic body, whatever limits, ttl, memory, predicates, invalidations occur (C01w_returns_function_value). Tied to the code by step-wise correspondence with the three real engines and with 254 macro-generated functions (oracle: returned value = function's value; methods on two receivers).", "7 C01"),
     "C02": ("Theorem C02_key_injective: for every signature (receiver + arguments of nested built-in and derived-Debug types) equal keys imply equal argument tuples, for both key generators (typed parser round-trip over a model of Rust's Debug). Tied to the code by comparing the real key strings of 48 signatures with the model code point by code point, collision tests on near-miss pairs, and a macro part with pattern parameters.", "7 C02"),
     "C03": ("Theorem C03_computed_once: without limit/ttl/memory/predicates the body runs iff the key did not occur before and later calls return the first result; concurrency: C03_stored_stays_stored / C03_after_a_store_every_lookup_hits (sync, critical-section model) and C03_async_store_seen_by_lock_free_readers (async, between the map operations of a store: a stored key that stays stored is never absent), plus C18's invariants. Tied to the code by execution counters on generated histories over three threads, bodies with early return, and overlapping real-time lookups of a stored key (both must be served).", "7 C03"),
     "C04": ("Theorem C04_entry_limit: for limit L >= 1 every reachable state of the engine model holds at most L entries, an overflowing store removes exactly one key, others none (invariant: queue == keys, NoDup, |store| <= L). Tied to the code by step-wise correspondence on key sets and queue (engines) and an independent limit oracle on macro-generated functions with invalidations in the history.", "7 C04"),
